@@ -19,8 +19,8 @@ ASSUMPTIONS = [
 SHARDS = E.SHARDS
 TIMEOUT = E.TIMEOUT
 MINIMUMS = {
-    "quick": {"feature:cleaned": 40, "distinct_plan_trace": 2000, "launch_events": 4000, "feature:resubmit": 50, "feature:fail": 100, "feature:foreign": 30},
-    "thorough": {"distinct_plan_trace": 80000, "launch_events": 150000, "feature:resubmit": 2000, "feature:fail": 4000, "feature:foreign": 1000},
+    "quick": {"feature:cleaned": 40, "distinct_plan_trace": 2000, "launch_events": 4000, "feature:resubmit": 50, "feature:fail": 100, "feature:foreign": 30, "dependency_failed_under_reattached_job": 1},
+    "thorough": {"distinct_plan_trace": 80000, "launch_events": 150000, "feature:resubmit": 2000, "feature:fail": 4000, "feature:foreign": 1000, "dependency_failed_under_reattached_job": 100},
 }
 PROFILES = [
     PlanProfile(tokens=2, p_fail=0.0),
@@ -29,6 +29,10 @@ PROFILES = [
     PlanProfile(tokens=0, p_fail=0.3, p_resubmit=0.5, multi_run=0.5),
     PlanProfile(tokens=1, p_fail=0.1, multi_run=0.6, p_dup=0.3),
     PlanProfile(tokens=0, p_fail=0.1, multi_run=1.0, p_abort=0.2, p_clean=0.9, p_edge=0.6),
+    # an aborted first run leaves job processes behind; the result of what they depend on is removed, runs again and
+    # fails while the re-attached dependents are still running
+    PlanProfile(tokens=0, max_jobs=5, multi_run=1.0, p_abort=0.9, p_clean=1.0, p_edge=0.7, abort_late=True),
+    PlanProfile(tokens=0, max_jobs=5, multi_run=1.0, p_abort=1.0, p_clean=1.0, p_edge=0.6, abort_late=True),
 ]
-worker = E.make_worker(PROPERTY, PROFILES, {"quick": 960, "thorough": 24000}, {"quick": 5, "thorough": 5})
+worker = E.make_worker(PROPERTY, PROFILES, {"quick": 1280, "thorough": 32000}, {"quick": 5, "thorough": 5})
 replay = E.make_replay(PROPERTY)
